@@ -1129,6 +1129,37 @@ def ref_from_flat(flat):
     r.st = [r.initial(i) for i in range(len(flat))]
     return r
 
+def parse_meta(b):
+    """metadata block -> {key: value bytes | None}"""
+    out = {}
+    parts = b.split(b"\0")
+    k = 0
+    while k < len(parts) and parts[k].startswith(b":"):
+        key = parts[k][1:].decode("latin-1")
+        if k + 1 < len(parts) and parts[k + 1].startswith(b"="):
+            out[key] = parts[k + 1][1:]
+            k += 2
+        else:
+            out[key] = None
+            k += 1
+    return out
+
+def metas_of_tree(tree):
+    """{(level, port name in front of # / :): metadata dict} of the tree field of a case line"""
+    if tree.startswith("static@"):
+        tree = tree[7:]
+    out = {}
+    for t, lvl in enumerate(tree.split("|")):
+        for item in lvl.split(";"):
+            g = item.split(",")
+            if len(g) == 4 and g[0] == "p":
+                name = bytes.fromhex(g[2]).decode("latin-1") if g[2] != "-" else ""
+                stem = name.split("#")[0].split(":")[0].split("/")[0]
+                if name.endswith("/") or g[1] in ("subp", "self"):
+                    continue
+                out[(t, stem)] = parse_meta(bytes.fromhex(g[3]) if g[3] != "-" else b"")
+    return out
+
 def kv_fields(line):
     out = {}
     for tok in line.split(" "):
